@@ -1227,7 +1227,10 @@ impl<const STREAMING: bool> GroupValues for GroupValuesColumn<STREAMING> {
                     .iter_mut()
                     .map(|v| v.take_n(n))
                     .collect::<Vec<_>>();
-                let mut next_new_list_offset = 0;
+                // Surviving non-inlined lists are collected into a fresh vector: the hash
+                // table is walked in table order, so compacting `group_index_lists` in
+                // place could overwrite the list of a bucket that has not been visited yet.
+                let mut new_group_index_lists: Vec<Vec<usize>> = Vec::new();
 
                 self.map.retain(|(_exist_hash, group_idx_view)| {
                     // In non-streaming case, we need to check if the `group index view`
@@ -1258,15 +1261,11 @@ impl<const STREAMING: bool> GroupValues for GroupValuesColumn<STREAMING> {
                                 GroupIndexView::new_inlined(*group_index as u64);
                             true
                         } else {
-                            let group_index_list =
-                                &mut self.group_index_lists[next_new_list_offset];
-                            group_index_list.clear();
-                            group_index_list
-                                .extend(self.emit_group_index_list_buffer.iter());
                             *group_idx_view = GroupIndexView::new_non_inlined(
-                                next_new_list_offset as u64,
+                                new_group_index_lists.len() as u64,
                             );
-                            next_new_list_offset += 1;
+                            new_group_index_lists
+                                .push(self.emit_group_index_list_buffer.clone());
                             true
                         }
                     } else {
@@ -1288,7 +1287,7 @@ impl<const STREAMING: bool> GroupValues for GroupValuesColumn<STREAMING> {
                 });
 
                 if !STREAMING {
-                    self.group_index_lists.truncate(next_new_list_offset);
+                    self.group_index_lists = new_group_index_lists;
                 }
 
                 output
